@@ -337,15 +337,21 @@ def _registry_table(ctx, P, fi):
     batches = [("b_cc",), ("a_gg",), ("a_cg", "a_gg"), ("b_cc", "a_gg"), ("a_gg", "b_cc"), ("b_gc", "b_cc", "a_gg"), ("a_gg", "a_cg", "b_gc")]
     n = 0
     problems = []
-    for (iname, init), batch, overwrite, as_kw in itertools.product(initials.items(), batches, (False, True), (False,)):
-        inst = f"{iname}, register {list(batch)}, overwrite={overwrite}"
+    OMIT = object()
+    for (iname, init), batch, overwrite, as_kw in itertools.product(initials.items(), batches, (False, True, OMIT), (False,)):
+        if overwrite is OMIT and iname not in ("one variable registered", "empty registry"):
+            continue
+        inst = f"{iname}, register {list(batch)}, overwrite={'not given' if overwrite is OMIT else overwrite}"
 
         def make():
             ds = Obj("Dataset", "grid_ds", (), {"variables": list(pool), "data_vars": list(pool)})
             g = make_grid(("AX", "AY"), ds=ds)
             g.attrs["_metrics"] = {k: [var(v) for v in vs] for k, vs in init.items()}
             val = list(batch) if len(batch) > 1 else batch[0]
-            return dict(self=g, key=(AX, AY), value=val, overwrite=overwrite)
+            a = dict(self=g, key=(AX, AY), value=val, overwrite=overwrite)
+            if overwrite is OMIT:
+                del a["overwrite"]  # the caller does not mention it: an occupied slot must then be refused
+            return a
 
         ev = Evaluator(P, method_models=ds_models())
         try:
@@ -353,7 +359,7 @@ def _registry_table(ctx, P, fi):
         except Unmodelled as e:
             ctx.unknown("R16.3", inst, str(e))
             continue
-        want_reg, want_kind = reference(init, kxy, batch, overwrite)
+        want_reg, want_kind = reference(init, kxy, batch, False if overwrite is OMIT else overwrite)
         n += 1
         for o in outs:
             g = o.env.get("self")
@@ -362,6 +368,9 @@ def _registry_table(ctx, P, fi):
             kind = "raise" if o.kind == "raise" else "return"
             if kind != want_kind:
                 problems.append((inst, f"{'is refused (' + str(o.value) + ')' if kind == 'raise' else 'is accepted'}; registering one variable at a time, in order, {'is refused at the occupied slot' if want_kind == 'raise' else 'succeeds'}"))
+            elif isinstance(reg, dict) and any(isinstance(v, Obj) and v.name in batch and not any(e[0] == "reset_coords" and dict(e[1]).get("drop") is True for e in v.eff)
+                                               for vs in reg.values() for v in vs):
+                problems.append((inst, "a variable is registered without dropping its non-index coordinates (reset_coords(drop=True)): a metric carrying coordinates does not broadcast cleanly against data"))
             elif got != want_reg:
                 show = lambda r: {tuple(sorted(x.name for x in k)): v for k, v in r.items()} if isinstance(r, dict) else r
                 problems.append((inst, f"registry afterwards is {show(got)}; registering one variable at a time, in order, gives {show(want_reg)}"))
